@@ -529,6 +529,7 @@ func (a *FuncAn) ctermLin(c cterm, typ types.Type) Lin {
 	}
 	bits, uns, _ := a.E.intInfo(typ)
 	at := a.atom("proj:"+c.key, "field("+c.key+")", uns)
+	a.noteVersion(at, c.key)
 	if !a.inited[at] && bits > 0 && bits < 63 {
 		a.inited[at] = true
 		hi := typeMax(bits, uns)
